@@ -5,6 +5,18 @@
 use super::{Case, EqValue, Separatable};
 use syn::{token, Ident};
 
+/// step over the `= value` or `(...)` part of a key that is not interpreted here
+/// (`default = "path"`, `with = "module"`, `bound(...)`, ...)
+fn skip_value(input: syn::parse::ParseStream) -> syn::Result<()> {
+    if input.peek(token::Eq) {
+        let _ = input.parse::<token::Eq>()?;
+        let _ = input.parse::<syn::Expr>()?;
+    } else if input.peek(token::Paren) {
+        let _ = input.parse::<proc_macro2::Group>()?;
+    }
+    Ok(())
+}
+
 #[derive(Default)]
 pub(crate) struct ContainerAttributes {
     pub(crate) rename:            Separatable<String>,
@@ -22,6 +34,14 @@ pub(crate) struct ContainerAttributes {
 impl syn::parse::Parse for ContainerAttributes {
     fn parse(input: syn::parse::ParseStream) -> syn::Result<Self> {
         let mut this = ContainerAttributes::default();
+        this.parse_more(input)?;
+        Ok(this)
+    }
+}
+impl ContainerAttributes {
+    /// an item can carry several `#[serde(...)]` attributes: each one adds to what the others said
+    pub(crate) fn parse_more(&mut self, input: syn::parse::ParseStream) -> syn::Result<()> {
+        let this = self;
 
         while let Ok(i) = input.parse::<Ident>() {
             match &*i.to_string() {
@@ -31,12 +51,12 @@ impl syn::parse::Parse for ContainerAttributes {
                 "tag"               => this.tag               = input.parse()?,
                 "content"           => this.content           = input.parse()?,
                 "untagged"          => this.untagged          = true,
-                "default"           => this.default           = true,
+                "default"           => {this.default = true; skip_value(input)?},
                 "transparent"       => this.transparent       = true,
                 "from"              => this.from              = input.parse()?,
                 "try_from"          => this.try_from          = input.parse()?,
                 "into"              => this.into              = input.parse()?,
-                _ => ()
+                _ => skip_value(input)?
             }
 
             if input.peek(token::Comma) {
@@ -44,7 +64,7 @@ impl syn::parse::Parse for ContainerAttributes {
             }
         }
 
-        Ok(this)
+        Ok(())
     }
 }
 
@@ -62,18 +82,26 @@ pub(crate) struct FieldAttributes {
 impl syn::parse::Parse for FieldAttributes {
     fn parse(input: syn::parse::ParseStream) -> syn::Result<Self> {
         let mut this = FieldAttributes::default();
+        this.parse_more(input)?;
+        Ok(this)
+    }
+}
+impl FieldAttributes {
+    /// an item can carry several `#[serde(...)]` attributes: each one adds to what the others said
+    pub(crate) fn parse_more(&mut self, input: syn::parse::ParseStream) -> syn::Result<()> {
+        let this = self;
 
         while let Ok(i) = input.parse::<Ident>() {
             match &*i.to_string() {
                 "rename"              => this.rename              = input.parse()?,
                 "alias"               => this.alias               = input.parse()?,
-                "default"             => this.default             = true,
+                "default"             => {this.default = true; skip_value(input)?},
                 "flatten"             => this.flatten             = true,
                 "skip"                => this.skip                = true,
                 "skip_serializing"    => this.skip_serializing    = true,
                 "skip_deserializing"  => this.skip_deserializing  = true,
                 "skip_serializing_if" => this.skip_serializing_if = input.parse()?,
-                _ => ()
+                _ => skip_value(input)?
             }
 
             if input.peek(token::Comma) {
@@ -81,7 +109,7 @@ impl syn::parse::Parse for FieldAttributes {
             }
         }
 
-        Ok(this)
+        Ok(())
     }
 }
 
@@ -100,6 +128,14 @@ pub(crate) struct VariantAttributes {
 impl syn::parse::Parse for VariantAttributes {
     fn parse(input: syn::parse::ParseStream) -> syn::Result<Self> {
         let mut this = VariantAttributes::default();
+        this.parse_more(input)?;
+        Ok(this)
+    }
+}
+impl VariantAttributes {
+    /// an item can carry several `#[serde(...)]` attributes: each one adds to what the others said
+    pub(crate) fn parse_more(&mut self, input: syn::parse::ParseStream) -> syn::Result<()> {
+        let this = self;
 
         while let Ok(i) = input.parse::<Ident>() {
             match &*i.to_string() {
@@ -112,7 +148,7 @@ impl syn::parse::Parse for VariantAttributes {
                 "skip_serializing_if" => this.skip_serializing_if = input.parse()?,
                 "other"               => this.other               = true,
                 "untagged"            => this.untagged            = true,
-                _ => ()
+                _ => skip_value(input)?
             }
 
             if input.peek(token::Comma) {
@@ -120,7 +156,7 @@ impl syn::parse::Parse for VariantAttributes {
             }
         }
 
-        Ok(this)
+        Ok(())
     }
 }
 
